@@ -11,6 +11,8 @@ State: the map model and the two repair switches (`mode`).  Common commands (→
   size <n>                            → `mm.map_size = n`                           → ok <dump> | error
   reverse                             → `mm.terrain = list(reversed(mm.terrain))`     → ok <dump> | error
   rotate <k>                          → `mm.terrain = mm.terrain[k:] + mm.terrain[:k]` → ok <dump> | error
+  prefix <n>                          → `mm.terrain = mm.terrain[:n]` (same objects, same list positions) → ok <dump> | error
+  extend <n> <base>                   → `mm.terrain = mm.terrain + n new tiles`        → ok <dump> | error
   elevs <e0,e1,…>                     → tile k gets elevation e_k (length must match) → ok | error
   dump                                → <dump>
   push / pop                          → save / restore the manager state (depth-first exploration of histories) → ok
@@ -87,6 +89,14 @@ def stepCommon (s : St) (line : String) : Option (St × String) :=
     match n.toNat? with
     | some n => some (applyMap s (setSize s.m n))
     | none => some (s, "bad-op")
+  | ["prefix", n] =>
+    match n.toNat? with
+    | some n => some (applyMap s (setTerrain s.m (s.m.tiles.take n)))
+    | none => some (s, "bad-op")
+  | ["extend", n, base] =>
+    match n.toNat?, base.toNat? with
+    | some n, some base => some (applyMap s (setTerrain s.m (s.m.tiles ++ (List.range n).map (fun j => mkTile (base + j)))))
+    | _, _ => some (s, "bad-op")
   | ["reverse"] => some (applyMap s (setTerrain s.m s.m.tiles.reverse))
   | ["rotate", k] =>
     match k.toNat? with
